@@ -66,6 +66,11 @@ Qed.
 Lemma itoa_inert : forall z, forallb inert_byte (itoa z) = true.
 Proof. intros z. apply (forallb_impl _ _ _ digit_inert). apply itoa_ok. Qed.
 
+Lemma itoa_wide_inert : forall z, forallb inert_byte (itoa_wide z) = true.
+Proof.
+  intros z. apply (forallb_impl _ _ _ digit_inert). unfold itoa_wide. apply dec_digits_ok. reflexivity.
+Qed.
+
 Lemma format_fixed_inert : forall d x, forallb inert_byte (format_fixed d x) = true.
 Proof.
   intros d x. unfold format_fixed. destruct x as [s|s| |s m e].
@@ -75,7 +80,7 @@ Proof.
   - destruct s; reflexivity.
   - reflexivity.
   - cbv zeta. apply forallb_app_intro; [destruct s; reflexivity|].
-    apply forallb_app_intro; [apply itoa_inert|].
+    apply forallb_app_intro; [apply itoa_wide_inert|].
     destruct d; [reflexivity|]. cbn [forallb]. unfold pad_left_zeros.
     rewrite forallb_app_intro; [reflexivity| |apply itoa_inert].
     apply forallb_repeat. reflexivity.
